@@ -517,80 +517,85 @@ Definition finish_parsing_for_expr_body (open_ty : Z) : M (expr * diags) :=
 End bodies.
 
 (* ---- the knot --------------------------------------------------------------------------------- *)
-Fixpoint attr_splat_loop (fuel : nat) (trav : list step) (ds : diags) : M (option (list step) * diags) :=
+Fixpoint attr_splat_loop (fuel : nat) (trav : list step) (ds : diags) (s : pstate) {struct fuel}
+  : res (option (list step) * diags) :=
   match fuel with
-  | O => out_of_fuel
-  | S f => attr_splat_loop_body (attr_splat_loop f) trav ds
+  | O => OutOfFuel
+  | S f => attr_splat_loop_body (attr_splat_loop f) trav ds s
   end.
 
-Fixpoint call_name_loop (fuel : nat) (name_str : list Z) (open_tok : ptok) (ds : diags)
-  : M ((expr * diags) + (list Z * ptok)) :=
+Fixpoint call_name_loop (fuel : nat) (name_str : list Z) (open_tok : ptok) (ds : diags) (s : pstate)
+  {struct fuel} : res ((expr * diags) + (list Z * ptok)) :=
   match fuel with
-  | O => out_of_fuel
-  | S f => call_name_loop_body f (call_name_loop f) name_str open_tok ds
+  | O => OutOfFuel
+  | S f => call_name_loop_body f (call_name_loop f) name_str open_tok ds s
   end.
 
-Fixpoint parse_expression (fuel : nat) : M (expr * diags) :=
+(* Every member takes the state explicitly and every callee is passed as a partial application:
+   under call-by-value evaluation (vm_compute) nothing is unfolded before a state arrives. *)
+Fixpoint parse_expression (fuel : nat) (s : pstate) {struct fuel} : res (expr * diags) :=
   match fuel with
-  | O => out_of_fuel
+  | O => OutOfFuel
   | S f =>
       parse_ternary_conditional_body (parse_expression f)
-        (parse_binary_ops f (parse_expression_with_traversals f) binary_ops)
+        (fun s => parse_binary_ops f (parse_expression_with_traversals f) binary_ops s) s
   end
-with parse_expression_with_traversals (fuel : nat) : M (expr * diags) :=
+with parse_expression_with_traversals (fuel : nat) (s : pstate) {struct fuel} : res (expr * diags) :=
   match fuel with
-  | O => out_of_fuel
-  | S f => parse_expression_with_traversals_body (parse_expression_term f) (fun e => traversals_loop f e [])
+  | O => OutOfFuel
+  | S f => parse_expression_with_traversals_body (parse_expression_term f) (fun e => traversals_loop f e []) s
   end
-with traversals_loop (fuel : nat) (e : expr) (ds : diags) : M (expr * diags) :=
+with traversals_loop (fuel : nat) (e : expr) (ds : diags) (s : pstate) {struct fuel} : res (expr * diags) :=
   match fuel with
-  | O => out_of_fuel
+  | O => OutOfFuel
   | S f =>
       traversals_loop_body f (parse_expression f) (fun e => traversals_loop f e []) (attr_splat_loop f)
-        (traversals_loop f) e ds
+        (traversals_loop f) e ds s
   end
-with parse_expression_term (fuel : nat) : M (expr * diags) :=
+with parse_expression_term (fuel : nat) (s : pstate) {struct fuel} : res (expr * diags) :=
   match fuel with
-  | O => out_of_fuel
+  | O => OutOfFuel
   | S f =>
       parse_expression_term_body f (parse_expression f) (parse_expression_with_traversals f)
         (finish_parsing_function_call f) (parse_tuple_cons f) (parse_object_cons f)
-        (parse_template_inner (parse_expression f) f)
+        (parse_template_inner (parse_expression f) f) s
   end
-with finish_parsing_function_call (fuel : nat) (name : ptok) : M (expr * diags) :=
+with finish_parsing_function_call (fuel : nat) (name : ptok) (s : pstate) {struct fuel} : res (expr * diags) :=
   match fuel with
-  | O => out_of_fuel
-  | S f => finish_parsing_function_call_body f (call_name_loop f) (call_args_loop f) name
+  | O => OutOfFuel
+  | S f => finish_parsing_function_call_body f (call_name_loop f) (call_args_loop f) name s
   end
-with call_args_loop (fuel : nat) (args : list expr) (ds : diags) : M (list expr * bool * diags) :=
+with call_args_loop (fuel : nat) (args : list expr) (ds : diags) (s : pstate) {struct fuel}
+  : res (list expr * bool * diags) :=
   match fuel with
-  | O => out_of_fuel
-  | S f => call_args_loop_body f (parse_expression f) (call_args_loop f) args ds
+  | O => OutOfFuel
+  | S f => call_args_loop_body f (parse_expression f) (call_args_loop f) args ds s
   end
-with parse_tuple_cons (fuel : nat) : M (expr * diags) :=
+with parse_tuple_cons (fuel : nat) (s : pstate) {struct fuel} : res (expr * diags) :=
   match fuel with
-  | O => out_of_fuel
-  | S f => parse_tuple_cons_body (finish_parsing_for_expr f) (tuple_loop f)
+  | O => OutOfFuel
+  | S f => parse_tuple_cons_body (finish_parsing_for_expr f) (tuple_loop f) s
   end
-with tuple_loop (fuel : nat) (exprs : list expr) (ds : diags) : M (list expr * diags) :=
+with tuple_loop (fuel : nat) (exprs : list expr) (ds : diags) (s : pstate) {struct fuel} : res (list expr * diags) :=
   match fuel with
-  | O => out_of_fuel
-  | S f => tuple_loop_body f (parse_expression f) (tuple_loop f) exprs ds
+  | O => OutOfFuel
+  | S f => tuple_loop_body f (parse_expression f) (tuple_loop f) exprs ds s
   end
-with parse_object_cons (fuel : nat) : M (expr * diags) :=
+with parse_object_cons (fuel : nat) (s : pstate) {struct fuel} : res (expr * diags) :=
   match fuel with
-  | O => out_of_fuel
-  | S f => parse_object_cons_body (finish_parsing_for_expr f) (object_loop f)
+  | O => OutOfFuel
+  | S f => parse_object_cons_body (finish_parsing_for_expr f) (object_loop f) s
   end
-with object_loop (fuel : nat) (items : list (expr * expr)) (ds : diags) : M (list (expr * expr) * diags) :=
+with object_loop (fuel : nat) (items : list (expr * expr)) (ds : diags) (s : pstate) {struct fuel}
+  : res (list (expr * expr) * diags) :=
   match fuel with
-  | O => out_of_fuel
-  | S f => object_loop_body f (parse_expression f) (object_loop f) items ds
+  | O => OutOfFuel
+  | S f => object_loop_body f (parse_expression f) (object_loop f) items ds s
   end
-with finish_parsing_for_expr (fuel : nat) (open_ty : Z) : M (expr * diags) :=
+with finish_parsing_for_expr (fuel : nat) (open_ty : Z) (s : pstate) {struct fuel} : res (expr * diags) :=
   match fuel with
-  | O => out_of_fuel
-  | S f => finish_parsing_for_expr_body f (parse_expression f) open_ty
+  | O => OutOfFuel
+  | S f => finish_parsing_for_expr_body f (parse_expression f) open_ty s
   end.
 
 (* parseExpressionTraversals(from) *)
